@@ -181,7 +181,7 @@ func (w *world) finish() {
 	o := w.owner()
 	ctx := context.Background()
 	root := o.Acl.Root()
-	rest, err := o.Acl.RecordsAfter(ctx, root.Id)
+	rest, err := o.Acl.RecordsAfter(ctx, "")
 	if err != nil {
 		w.r.Fatal("RecordsAfter: " + err.Error())
 	}
@@ -189,7 +189,23 @@ func (w *world) finish() {
 	if len(rest) == 0 || rest[0].Id != root.Id {
 		w.recs = append(w.recs, root)
 	}
-	w.recs = append(w.recs, rest...)
+	// the executor's `add` command shares the owner's in-memory storage with the new account's list,
+	// so that storage can hold a record twice: keep first occurrences only
+	seen := map[string]bool{}
+	for _, x := range w.recs {
+		seen[x.Id] = true
+	}
+	for _, x := range rest {
+		if !seen[x.Id] {
+			seen[x.Id] = true
+			w.recs = append(w.recs, x)
+		}
+	}
+	for i, rec := range o.Acl.Records() {
+		if i >= len(w.recs) || w.recs[i].Id != rec.Id {
+			w.r.Fatal("record log read-back: order differs from the list's records")
+		}
+	}
 	if len(w.recs) != len(o.Acl.Records()) {
 		w.r.Fatal(fmt.Sprintf("record log read-back: %d raw vs %d records", len(w.recs), len(o.Acl.Records())))
 	}
